@@ -1260,9 +1260,15 @@ pub fn compute_lp_mint_amount_for_stableswap_deposit(
                     asset_decimals as u8,
                 )
                 .ok_or(ContractError::StableLpMintError)?;
-                let new_amount = Uint512::from(adjusted_full_new_assets[i].amount)
+                let new_amount: Uint128 = Uint512::from(adjusted_full_new_assets[i].amount)
                     .checked_sub(fee_in_asset_precision)?
                     .try_into()?;
+                // the fee must not consume a whole balance: the invariant computation skips
+                // zero balances, which would overstate D and with it the LP amount to mint
+                ensure!(
+                    !new_amount.is_zero() || adjusted_full_new_assets[i].amount.is_zero(),
+                    ContractError::StableLpMintError
+                );
                 adjusted_full_new_assets[i].amount = new_amount;
             }
         }
